@@ -818,10 +818,12 @@ class RunA:
         METER.last_loop = None
         METER.active = True
         world_b.CURRENT[0] = self
+        lib.LOCK_YIELD[0] = self.baton.lock_yield
         try:
             self.baton.run([safe_body] * n)
         finally:
             world_b.CURRENT[0] = None
+            lib.LOCK_YIELD[0] = None
             METER.active = False
         self.n_steps = METER.count
         for name, rep, tb in self.baton.errors:
